@@ -386,17 +386,28 @@ class XMLFormatter(GraphtageFormatter):
         self.print(printer, node.tag)
         if node.attrib:
             self.print(printer, node.attrib)
+        if node.text is None and isinstance(node, EditedTreeNode) and isinstance(node.edit, XMLElementEdit) \
+                and isinstance(node.edit.text_edit, Insert):
+            # the element had no text, but text is being inserted into it
+            inserted_text: Optional[Edit] = node.edit.text_edit
+        else:
+            inserted_text = None
         if node._children._children or (node.text is not None and '\n' in node.text.object):
             printer.write('>')
             if node.text is not None:
                 self.print(printer, node.text)
+            elif inserted_text is not None:
+                self.print(printer, inserted_text)
             self.print(printer, node._children)
             printer.write('</')
             self.print(printer, node.tag)
             printer.write('>')
-        elif node.text is not None:
+        elif node.text is not None or inserted_text is not None:
             printer.write('>')
-            self.print(printer, node.text)
+            if node.text is not None:
+                self.print(printer, node.text)
+            else:
+                self.print(printer, inserted_text)
             printer.write('</')
             self.print(printer, node.tag)
             printer.write('>')
